@@ -36,7 +36,7 @@ for label in sorted(set(CONF) | set(CHK)):
     src = "/tmp/wt/%s.out" % stem
     c = CONF.get(label)
     k = CHK.get(label, {"checks": {}, "what": []})
-    confirmed = bool(c) and c["suite_failed"] == 0 and c["suite_passed"] > 800 and "FAILED" in c["demo_with_patch"] and "ok." in c["demo_without_patch"]
+    confirmed = bool(c) and c["suite_failed"] == 0 and c["suite_passed"] > 800 and ("FAILED" in c["demo_with_patch"] or ("ok." not in c["demo_with_patch"] and "error" in c["demo_with_patch"])) and "ok." in c["demo_without_patch"]
     if not os.path.exists(os.path.join(src, "patch%s.diff" % n)):
         continue
     notes = ""
